@@ -2,7 +2,7 @@
 import ast
 import os
 
-from . import pyxfront
+from . import norm, pyxfront
 
 
 class AnalysisError(Exception):
@@ -83,9 +83,12 @@ class ClassInfo:
 
 
 class Program:
-    def __init__(self, root, overrides=None):
+    def __init__(self, root, overrides=None, normalise=True):
         """root: path to repo; overrides: {relpath under src/gstools: source text} (self-test mutants)."""
         self.root = root
+        self.normalise = normalise
+        self.frozen = norm.load_frozen() if normalise else None
+        self.norm_info = {}
         self.src = os.path.join(root, "src", PKG)
         self.modules = {}  # dotted name -> Module
         self.by_rel = {}  # relpath -> Module
@@ -128,6 +131,16 @@ class Program:
                 mod.is_pkg = fn == "__init__.py"
                 self.modules[name] = mod
                 self.by_rel[rel] = mod
+        if self.normalise:
+            trees = [m.tree for m in self.modules.values() if m.pyx is None]
+            pure = norm.pure_method_names(trees)
+            sigs = norm.signatures(trees)
+            for rel, mod in self.by_rel.items():
+                if mod.pyx is None:
+                    try:
+                        self.norm_info[rel] = norm.normalise(rel, mod.tree, self.frozen, pure, sigs)
+                    except RecursionError as e:  # pragma: no cover
+                        raise AnalysisError("normalisation of %s failed: %s" % (rel, e))
         for mod in self.modules.values():
             self._index(mod)
 
